@@ -23,16 +23,52 @@ STD_ENUMS = {
 
 
 def strip_generics(s):
+    """Remove generic argument lists: `a::B::<I>::f` -> `a::B::f`, `Vec<T>` -> `Vec`.
+    Qualified-self segments (`<T as Trait>`, `<impl Trait for T>`) are kept, with their inner generics removed."""
     out = []
-    depth = 0
-    for ch in s:
+    i = 0
+    n = len(s)
+    while i < n:
+        ch = s[i]
         if ch == "<":
+            # find matching '>'
+            depth = 0
+            j = i
+            while j < n:
+                if s[j] == "<":
+                    depth += 1
+                elif s[j] == ">" and not (j > 0 and s[j - 1] == "-"):
+                    depth -= 1
+                    if depth == 0:
+                        break
+                j += 1
+            inner = s[i + 1:j]
+            qualified = (i == 0 or s[i - 1] == ":" or s[i - 1] in " (&[,") and (
+                inner.startswith("impl ") or _has_top_level(inner, " as "))
+            if qualified:
+                out.append("<" + strip_generics(inner) + ">")
+            i = j + 1
+            continue
+        out.append(ch)
+        i += 1
+    r = "".join(out)
+    while "::::" in r:
+        r = r.replace("::::", "::")
+    return r.rstrip(":")
+
+
+def _has_top_level(s, needle):
+    depth = 0
+    i = 0
+    while i < len(s):
+        if s[i] == "<":
             depth += 1
-        elif ch == ">":
+        elif s[i] == ">" and not (i > 0 and s[i - 1] == "-"):
             depth -= 1
-        elif depth == 0:
-            out.append(ch)
-    return "".join(out).replace("::::", "::").rstrip(":")
+        elif depth == 0 and s.startswith(needle, i):
+            return True
+        i += 1
+    return False
 
 
 def ty_head(ty):
